@@ -12,6 +12,14 @@ from . import coqrun
 VERIF = coqrun.VERIF
 EVID = os.path.join(VERIF, "evidence")
 REPLAYS = os.path.join(VERIF, "replays")
+# A run against another tree (HOLOPY_REPO=<scratch worktree>, used to try seeded changes and proposed
+# repairs) is not a run against /repo: its evidence and replay files must never replace /verif's own.
+_TREE = os.path.realpath(os.environ.get("HOLOPY_REPO", "/repo"))
+if _TREE != os.path.realpath("/repo"):
+    import hashlib as _hl
+    _ALT = os.path.join(VERIF, "build", "alt", _hl.sha1(_TREE.encode()).hexdigest()[:10])
+    EVID = os.path.join(_ALT, "evidence")
+    REPLAYS = os.path.join(_ALT, "replays")
 KNOWN = os.path.join(VERIF, "KNOWN_FINDINGS.json")
 
 
